@@ -18,7 +18,7 @@ class BuilderSystem:
 
     def fresh(self):
         st = Sut(dict(self.cfg), self.cls)
-        st.machine = Machine()
+        st.machine = Machine(getattr(self, "labels", None))
         st.last_rejected = False
         st.last_exc = None
         st.last_lines = []
